@@ -64,11 +64,8 @@ func VerifNewPrefetchKeyer(markerText string) (*VerifPrefetchKeyer, error) {
 }
 
 func (v *VerifPrefetchKeyer) Key(name []byte, typ, class uint16, addr netip.Addr) uint64 {
-	q := dnsmsg.NewQuestion()
-	q.Name = append(q.Name[:0], name...)
-	q.Type = dnsmsg.Type(typ)
-	q.Class = dnsmsg.Class(class)
-	defer dnsmsg.ReleaseQuestion(q)
+	// keyForPrefetch only reads the question; this one is not pool-owned and is never released
+	q := &dnsmsg.Question{Name: dnsmsg.Name(name), Type: dnsmsg.Type(typ), Class: dnsmsg.Class(class)}
 	return v.c.keyForPrefetch(q, addr)
 }
 
